@@ -207,10 +207,17 @@ def doc_for(tokens):
 def neighbours(tokens):
     out = []
     for i, t in enumerate(tokens):
-        for alt in {"0": ["00", "+0"], "1": ["01", "+1", " 1", "１", "1_0"], "01": ["1"], "+1": ["1"], " 1": ["1"], "１": ["1"], "1_0": ["10"], "10": ["1_0"], "~": ["~0", "/"], "/": ["~1", "~"], "~1": ["/"], "": ["a"], "a": ["", "A"], "-": ["-1"], "-1": ["-"], " ": [""], "#": ["#a"], "#a": ["a"], "é": ["e"], "\U0001f600": ["\ud83d"]}.get(t, []):
+        for alt in {"0": ["00", "+0"], "1": ["01", "+1", " 1", "１", "1_0"], "01": ["1"], "+1": ["1"], " 1": ["1"], "１": ["1"], "1_0": ["10"], "10": ["1_0"], "~": ["~0", "/"], "/": ["~1", "~"], "~1": ["/"], "": ["a"], "a": ["", "A"], "-": ["-1"], "-1": ["-"], " ": [""], "#": ["#a"], "#a": ["a"], "é": ["e", "e\u0301", "É", "\u00e9 "], "\U0001f600": ["\ud83d"]}.get(t, []):
             if alt == "\ud83d":
                 continue
             out.append(list(tokens[:i]) + [alt] + list(tokens[i + 1:]))
+        if not t.isascii():
+            import unicodedata
+
+            for form in ("NFC", "NFD", "NFKC", "NFKD"):
+                alt = unicodedata.normalize(form, t)
+                if alt != t:
+                    out.append(list(tokens[:i]) + [alt] + list(tokens[i + 1:]))
     out.append(list(tokens) + [""])
     if tokens:
         out.append(list(tokens[:-1]))
